@@ -305,6 +305,8 @@ def gen_params(rng, i, seed):
          "tunnel_s": rng.choice([5, 15, 40]), "p_inject": rng.choice([0.1, 0.3, 0.6])}
     if kind == "handshake":
         p["step"] = STEPS[(i // 3) % 10]         # every handshake step in turn
+        if i % 15 == 1:
+            p["step"] = "V"                      # (the version answer carries three peer-chosen binary fields)
         p["occurrence"] = rng.choice([1, 1, 1, 2, 3, 5])
         p["cls"] = hostile_cli.CLASSES[(i // 7) % len(hostile_cli.CLASSES)] if rng.random() < 0.7 else "step_payload"
         p["persist"] = rng.choice(["once", "same-step", "sticky"])
